@@ -79,25 +79,26 @@ Proof. intros H. apply existsb_exists. exists e. split; [exact H|apply expect_eq
 (** decorators *)
 Lemma dec_ctx_cases l d :
   (dec_ctx l d = Some CUse /\ dec_expect l d = [EUse])
-  \/ (dec_ctx l d = Some CParam)
+  \/ (dec_ctx l d = Some CParam /\ dec_expect l d = [EParam])
   \/ (dec_ctx l d = None /\ dec_expect l d = []).
 Proof.
   unfold dec_ctx, dec_expect. destruct (within l (cd_start d) (cd_end d)); [|right; right; split; reflexivity].
   rewrite <- !is_mark_spelling. destruct (is_mark "usefixtures" (cd_expr d)); [left; split; reflexivity|].
-  destruct (is_mark "parametrize" (cd_expr d)); [right; left; reflexivity|]. right; right. split; reflexivity.
+  destruct (is_mark "parametrize" (cd_expr d) && has_indirect (cd_expr d)); [right; left; split; reflexivity|].
+  right; right. split; reflexivity.
 Qed.
 Lemma decs_ctx l decs :
   match find_map (dec_ctx l) decs with
   | Some CUse => In EUse (flat_map (dec_expect l) decs)
-  | Some CParam => True
+  | Some CParam => In EParam (flat_map (dec_expect l) decs)
   | Some _ => False
   | None => flat_map (dec_expect l) decs = []
   end.
 Proof.
   induction decs as [|d ds IH]; [reflexivity|]. rewrite find_map_cons. cbn [flat_map].
-  destruct (dec_ctx_cases l d) as [[H1 H2]|[H1|[H1 H2]]]; rewrite H1.
+  destruct (dec_ctx_cases l d) as [[H1 H2]|[[H1 H2]|[H1 H2]]]; rewrite H1.
   - rewrite H2. now left.
-  - exact I.
+  - rewrite H2. now left.
   - rewrite H2. cbn [app]. exact IH.
 Qed.
 
@@ -110,7 +111,7 @@ Qed.
 Definition mark_result_ok (l : N) (r : option ctx) (marks : list expect) : Prop :=
   match r with
   | Some CUse => In EUse marks
-  | Some CParam => True
+  | Some CParam => In EParam marks
   | Some _ => False
   | None => marks = []
   end.
@@ -124,12 +125,12 @@ Proof.
   - cbn [decorator_ctx ccollected flat_map stmt_mark_expect].
     pose proof (decs_ctx l decs) as H. unfold mark_result_ok.
     destruct (find_map (dec_ctx l) decs) as [c|].
-    + destruct c; try exact H. apply in_or_app. now left.
+    + destruct c; try exact H; (apply in_or_app; now left).
     + rewrite H. cbn [app]. clear H.
       induction body as [|x r IH]; [reflexivity|]. rewrite find_map_cons. cbn [flat_map]. rewrite flat_map_app.
       pose proof (stmt_decorator_ctx l x) as Hx. unfold mark_result_ok in Hx.
       destruct (decorator_ctx l x) as [c|].
-      * destruct c; try exact Hx. apply in_or_app. now left.
+      * destruct c; try exact Hx; (apply in_or_app; now left).
       * rewrite Hx. cbn [app]. exact IH.
   - cbn [decorator_ctx ccollected flat_map stmt_mark_expect]. rewrite app_nil_r. unfold mark_result_ok.
     destruct v as [v|]; [|reflexivity]. rewrite mark_hit_expect.
@@ -142,7 +143,7 @@ Proof.
   induction m as [|x r IH]; [reflexivity|]. rewrite find_map_cons. cbn [flat_map]. rewrite flat_map_app.
   pose proof (stmt_decorator_ctx l x) as Hx. unfold mark_result_ok in *.
   destruct (decorator_ctx l x) as [c|].
-  - destruct c; try exact Hx. apply in_or_app. now left.
+  - destruct c; try exact Hx; (apply in_or_app; now left).
   - rewrite Hx. cbn [app]. exact IH.
 Qed.
 
@@ -245,17 +246,14 @@ Qed.
     finding). *)
 Theorem ast_ctx_meets_spec ls m l :
   Forall wf_stmt (flat_map ccollected m) ->
-  match ast_ctx ls m l with
-  | Some CParam => True
-  | r => existsb (expect_eqb (expect_of r)) (spec_expect m l) = true
-  end.
+  existsb (expect_eqb (expect_of (ast_ctx ls m l))) (spec_expect m l) = true.
 Proof.
   intros Hwf. unfold ast_ctx, spec_expect.
   pose proof (module_decorator_ctx l m) as Hd. unfold mark_result_ok in Hd.
   destruct (find_map (decorator_ctx l) m) as [c|].
-  - destruct c; try contradiction; [|exact I].
-    destruct (flat_map (stmt_mark_expect l) (flat_map ccollected m)) as [|e es] eqn:E; [contradiction|].
-    now apply existsb_in_refl.
+  - destruct c; try contradiction;
+      (destruct (flat_map (stmt_mark_expect l) (flat_map ccollected m)) as [|e es] eqn:E; [contradiction|];
+       now apply existsb_in_refl).
   - rewrite Hd. pose proof (module_function_ctx ls l m Hwf) as Hf. unfold fn_result_ok in Hf.
     destruct (find_map (function_ctx ls l) m) as [c|].
     + destruct c; try contradiction;
